@@ -105,6 +105,11 @@ pub fn run(ctx: &Ctx) {
 
 /// Replay every file under /verif/corpus/<name>/ (worker-sharded).
 pub fn replay_corpus(ctx: &Ctx, name: &str, f: impl Fn(&Ctx, &[u8]) -> Verdict) {
+    replay_corpus_with(ctx, name, |ctx, bytes| (f(ctx, bytes), Value::Null));
+}
+
+/// `f` returns the verdict and the case as the check's own replay format (Null: the raw bytes are saved instead).
+pub fn replay_corpus_with(ctx: &Ctx, name: &str, f: impl Fn(&Ctx, &[u8]) -> (Verdict, Value)) {
     let dir = std::path::PathBuf::from(crate::fw::verif_dir()).join("corpus").join(name);
     let mut files: Vec<std::path::PathBuf> = std::fs::read_dir(&dir).map(|rd| rd.filter_map(|e| e.ok()).map(|e| e.path()).filter(|p| p.is_file()).collect()).unwrap_or_default();
     files.sort();
@@ -125,9 +130,9 @@ pub fn replay_corpus(ctx: &Ctx, name: &str, f: impl Fn(&Ctx, &[u8]) -> Verdict) 
     for (i, (label, bytes)) in inputs.iter().enumerate() {
         if i as u32 % ctx.workers != ctx.worker { continue; }
         ctx.inflight(&serde_json::json!({"corpus_file": label, "bytes": crate::fw::util::Bytes(bytes.clone())}));
-        let v = f(ctx, bytes);
+        let (v, case) = f(ctx, bytes);
         let b2 = bytes.clone();
-        ctx.count(&v, crate::fw::hash64(bytes), || serde_json::json!({"corpus_file": label, "bytes": crate::fw::util::Bytes(b2)}));
+        ctx.count(&v, crate::fw::hash64(bytes), || if case.is_null() { serde_json::json!({"corpus_file": label, "bytes": crate::fw::util::Bytes(b2)}) } else { case });
     }
     ctx.clear_inflight();
 }
